@@ -451,6 +451,15 @@ def run(ctx):
             ctx.check(okd, "main-loop:order:updateDropIns-before-updateContext", "order", main.loc(c),
                       "drop-ins are applied before the context is refreshed",
                       "updateContext can run before updateDropIns")
+        # ... stated from the other side as well (the test of fs_drop_in_service_ may sit anywhere): when the drop-ins are applied, neither
+        # the context refresh nor the preruns of this iteration have happened yet - a ruleset that enters (or is re-enabled) between
+        # prerun and runOnce would run its detectors and actions on this tick without its prerun
+        for c in seq[0][1]:
+            early = not fl.may(c, "updateContext") and not fl.may(c, "prerun")
+            ctx.check(early, "main-loop:dropins-applied-before-prerun", "order", main.loc(c),
+                      "the set of rulesets does not change between prerun and runOnce of one iteration",
+                      "updateDropIns can run after %s of the same iteration: a drop-in added on that tick runs without its prerun, and a base ruleset "
+                      "re-enabled by a removal runs detectors whose prerun was skipped" % ("the preruns" if fl.may(c, "prerun") else "the context refresh"))
         # every iteration that is not an exit runs the engine
         for nm, cs in seq[1:]:
             per_iter_once(ctx, main, L, cs, "main-loop:every-iteration:" + nm, nm)
